@@ -334,6 +334,7 @@ def _einit(fn: ast.FunctionDef) -> tuple[str, dict]:
     map_at: int | None = None
     store_at: int | None = None
     how = 'EINone'
+    aliased = False
     for i, st in enumerate(_strip_doc(fn.body)):
         w = f'{where}:{st.lineno}'
         if isinstance(st, ast.AnnAssign) and st.value is not None:
@@ -357,7 +358,10 @@ def _einit(fn: ast.FunctionDef) -> tuple[str, dict]:
                 fresh_at = i
                 how, store_at = 'EIDirect', i
             else:
-                raise TranslateError(f'{w}: unrecognised value of self._keys: {ast.unparse(v)[:60]}')
+                # round 5: any other value (the argument itself, a conditional expression that may pick it, another object's
+                # dict ...) is not known to be a dict of this entity's own: the shape says "not a new empty dict" and the
+                # named obligation entity_init_starts_from_a_new_empty_key_dict fails (an alias shares later stores)
+                fresh_at, aliased = i, True
             continue
         # for k, v in keys.items(): self[k] = v
         if isinstance(st, ast.For) and any(isinstance(n, ast.Name) and n.id == keysp for n in ast.walk(st.iter)):
@@ -393,7 +397,7 @@ def _einit(fn: ast.FunctionDef) -> tuple[str, dict]:
             or any(isinstance(n, ast.Attribute) and n.attr in ('by_class', 'by_target', 'entities', 'spawn') for n in ast.walk(st))
         if bad:
             raise TranslateError(f'{w}: unrecognised statement {ast.unparse(st)[:80]}')
-    fresh = fresh_at is not None and (store_at is None or fresh_at <= store_at)
+    fresh = fresh_at is not None and (store_at is None or fresh_at <= store_at) and not aliased
     map_first = map_at is not None and (store_at is None or map_at < store_at or how != 'EISetItemLoop')
     return (f'Definition gen_einit : einit_shape := EI {_b(fresh)} {_b(map_first)} {how}.\n',
             dict(fresh_dict=fresh, map_first=map_first, store=how))
